@@ -51,8 +51,8 @@ pub fn step(wide: bool) -> BoxedStrategy<Step> {
             6 => Just(Step::Next),
             6 => Just(Step::NextBack),
             2 => Just(Step::Fork),
-            2 => (0u8..5).prop_map(Step::Nth),
-            2 => (0u8..5).prop_map(Step::NthBack),
+            2 => prop_oneof![4 => 0u16..5, 1 => 28u16..70, 1 => 120u16..135].prop_map(Step::Nth),
+            2 => prop_oneof![4 => 0u16..5, 1 => 28u16..70, 1 => 120u16..135].prop_map(Step::NthBack),
             1 => Just(Step::Dbg),
             1 => Just(Step::Count),
             1 => Just(Step::Last),
@@ -63,8 +63,8 @@ pub fn step(wide: bool) -> BoxedStrategy<Step> {
             1 => Just(Step::RFindMid),
             1 => Just(Step::RFold),
             1 => Just(Step::RevLast),
-            1 => (0u8..4).prop_map(Step::Skip),
-            1 => (0u8..3).prop_map(Step::StepBy),
+            1 => prop_oneof![4 => 0u16..4, 1 => 28u16..70].prop_map(Step::Skip),
+            1 => prop_oneof![4 => 0u16..3, 1 => 28u16..70].prop_map(Step::StepBy),
         ]
         .boxed()
     } else {
